@@ -5,6 +5,7 @@ import (
 	"context"
 	"errors"
 	"fmt"
+	"os"
 	"sort"
 	"strings"
 	"sync"
@@ -1319,4 +1320,156 @@ func genDCancel(r *vgen.Rand, i int) scenario {
 
 func dcancelCoq(sc scenario, res *resultJ) string {
 	return fmt.Sprintf("CDCancel %v %d %d %s [%s]", hasExporter(sc.Kinds[0]), res.XShutdowns[0], res.Late, res.ShutErr, strings.Join(res.StormKinds, ";"))
+}
+
+// ---- gated exporters: a call overlapping an export that is in flight ----
+
+type gate struct {
+	entered chan struct{} // one token per export that has begun
+	release chan struct{} // closed to let exports through
+}
+
+func newGate() *gate { return &gate{entered: make(chan struct{}, 64), release: make(chan struct{})} }
+
+type gatedSpanExp struct {
+	g     *gate
+	xshut atomic.Int64
+}
+
+func (e *gatedSpanExp) ExportSpans(context.Context, []sdktrace.ReadOnlySpan) error {
+	select {
+	case e.g.entered <- struct{}{}:
+	default:
+	}
+	<-e.g.release
+	return nil
+}
+func (e *gatedSpanExp) Shutdown(context.Context) error { e.xshut.Add(1); return nil }
+
+// childBSPFlush (seeded C15-14 shape), sc.N times on fresh batch processors: the worker is inside an export (gated),
+// ForceFlush(Background) queues its flush request behind it, Shutdown(Background) closes the stop channel, then the
+// export is let through. Both calls must return; the exporter is shut down exactly once.
+func childBSPFlush(sc scenario) resultJ {
+	ctx := context.Background()
+	var res resultJ
+	x := 0
+	errs := map[string]bool{}
+	for n := 0; n < sc.N; n++ {
+		g := newGate()
+		exp := &gatedSpanExp{g: g}
+		sp := sdktrace.NewBatchSpanProcessor(exp, sdktrace.WithBatchTimeout(time.Hour), sdktrace.WithExportTimeout(sdkTimeout), sdktrace.WithMaxExportBatchSize(1))
+		sp.OnEnd(endedSpan()) // batch size 1: the worker exports it at once and blocks in the gate
+		select {
+		case <-g.entered:
+		case <-time.After(10 * time.Second):
+			close(g.release) // precondition not met (starved): an ordinary flush + shutdown
+		}
+		var wg sync.WaitGroup
+		var fe, se error
+		wg.Add(2)
+		go func() { defer wg.Done(); fe = sp.ForceFlush(ctx) }()
+		time.Sleep(time.Duration(2+n%4) * time.Millisecond) // the flush request is queued behind the export
+		go func() { defer wg.Done(); se = sp.Shutdown(ctx) }()
+		time.Sleep(time.Duration(2+n%3) * time.Millisecond) // the stop channel is closed
+		select {
+		case <-g.release:
+		default:
+			close(g.release)
+		}
+		wg.Wait()
+		errs[errClass(fe)] = true
+		errs[errClass(se)] = true
+		x += int(exp.xshut.Load())
+	}
+	res.XShutdowns = []int{x}
+	res.ShutErr = "ENil"
+	for e := range errs {
+		if e != "ENil" {
+			res.ShutErr = e
+		}
+	}
+	return res
+}
+
+type gatedMetricExp struct {
+	inner    sdkmetric.Exporter
+	g        *gate
+	inflight atomic.Int64
+	bad      atomic.Int64 // exporter.Shutdown overlapping an Export, or an Export begun after exporter.Shutdown
+	xshut    atomic.Int64
+	first    atomic.Bool
+}
+
+func (e *gatedMetricExp) Temporality(k sdkmetric.InstrumentKind) metricdata.Temporality {
+	return e.inner.Temporality(k)
+}
+func (e *gatedMetricExp) Aggregation(k sdkmetric.InstrumentKind) sdkmetric.Aggregation {
+	return e.inner.Aggregation(k)
+}
+func (e *gatedMetricExp) Export(ctx context.Context, rm *metricdata.ResourceMetrics) error {
+	if e.xshut.Load() > 0 {
+		e.bad.Add(1)
+	}
+	e.inflight.Add(1)
+	defer e.inflight.Add(-1)
+	if e.first.CompareAndSwap(false, true) { // the first export is the slow backend write (it does not look at ctx)
+		select {
+		case e.g.entered <- struct{}{}:
+		default:
+		}
+		<-e.g.release
+	}
+	return nil
+}
+func (e *gatedMetricExp) ForceFlush(context.Context) error { return nil }
+func (e *gatedMetricExp) Shutdown(context.Context) error {
+	if e.inflight.Load() > 0 {
+		e.bad.Add(1)
+	}
+	e.xshut.Add(1)
+	return nil
+}
+
+// childMGate (seeded C15-19 shape), sc.N times: a flush export of a periodic reader is in flight (gated) when
+// Shutdown is called with an already-cancelled context (on the reader, or on the provider); the export is let
+// through 20-40 ms later. When Shutdown returns no Export may be running, the exporter's Shutdown must not have
+// overlapped an Export, and none may begin afterwards.
+func childMGate(sc scenario) resultJ {
+	var res resultJ
+	var atRet []int
+	late := 0
+	for n := 0; n < sc.N; n++ {
+		g := newGate()
+		e0, _ := stdoutmetric.New(stdoutmetric.WithWriter(&syncBuf{}))
+		exp := &gatedMetricExp{inner: e0, g: g}
+		rd := sdkmetric.NewPeriodicReader(exp, sdkmetric.WithInterval(time.Hour), sdkmetric.WithTimeout(sdkTimeout))
+		mp := sdkmetric.NewMeterProvider(sdkmetric.WithReader(rd))
+		c, _ := mp.Meter("m").Int64Counter("c")
+		c.Add(context.Background(), 1)
+		flushed := make(chan struct{})
+		go func() { _ = mp.ForceFlush(context.Background()); close(flushed) }()
+		select {
+		case <-g.entered:
+		case <-time.After(10 * time.Second):
+		}
+		go func() { time.Sleep(time.Duration(20+n%3*10) * time.Millisecond); close(g.release) }()
+		if n&1 == 0 {
+			_ = rd.Shutdown(ctxFor(false))
+		} else {
+			_ = mp.Shutdown(ctxFor(false))
+		}
+		if os.Getenv("MGATE_DEBUG") != "" {
+			fmt.Fprintln(os.Stderr, "mgate: at return inflight", exp.inflight.Load(), "xshut", exp.xshut.Load(), "bad", exp.bad.Load())
+		}
+		if exp.inflight.Load() > 0 {
+			late++ // an Export is still running although Shutdown has returned
+		}
+		atRet = append(atRet, int(exp.xshut.Load()))
+		<-flushed
+		time.Sleep(time.Millisecond)
+		late += int(exp.bad.Load())
+	}
+	res.XShutdowns = atRet
+	res.Late = late
+	return res
 }
